@@ -168,10 +168,14 @@ def execXYCB (impl : Impl) (i : XY) (c0 c1 : U8) : M Unit := do
   let c3 ← (if impl.ddcbM1 = 3 then fetchM1 else fetch)
   execOpt impl [c0, c1, d, c3] (decodeXYCB i d c3.toNat)
 
-def execXY (impl : Impl) (i : XY) (c0 : U8) : M Unit := do
-  let c1 ← fetchM1
+/-- after DD / FD and the second byte c1 -/
+def execXYtail (impl : Impl) (i : XY) (c0 c1 : U8) : M Unit :=
   if c1 = 0xcb#8 then execXYCB impl i c0 c1
   else execOpt impl [c0, c1] (decodeXY i c1.toNat)
+
+def execXY (impl : Impl) (i : XY) (c0 : U8) : M Unit := do
+  let c1 ← fetchM1
+  execXYtail impl i c0 c1
 
 /-- dispatch on the first opcode byte -/
 def execMain (impl : Impl) (c0 : U8) : M Unit := do
